@@ -469,6 +469,8 @@ class Session:
                     pass
                 asyncio.set_event_loop(None)
                 loop.close()
+        if self.spin_detected and outcome == "ok":
+            outcome = "spin"      # the spinning task was aborted by the guard so that the case could terminate
         self.outcome = outcome
         return outcome
 
